@@ -407,15 +407,21 @@ KF47(impl, st, c) ==
        /\ strict.res.err # "EACCES"
     THEN {Dev("KF47", Fail("EACCES", st), "ok", FALSE)} ELSE {}
 
+(* KF50  A Windows-typed file accepts an unknown whence in Seek: 0, nil, the offset is not moved (Go's syscall.Seek on
+         Windows maps an unknown whence to FILE_BEGIN and seeks; Linux answers EINVAL). *)
+KF50(impl, st, c) ==
+    IF WinTyped(impl) /\ c.op = "seek" /\ c.wh \notin {0, 1, 2} /\ ValidH(st, c) /\ H(st, c).open /\ ~H(st, c).dir
+    THEN {Dev("KF50", Ok(st), "ok", FALSE)} ELSE {}
+
 KFTable(impl, st, c) ==
     [KF01 |-> KF01(impl, st, c), KF02 |-> KF02(impl, st, c), KF03 |-> KF03(impl, st, c),
      KF04 |-> KF04(impl, st, c), KF05 |-> KF05(impl, st, c), KF06 |-> KF06(impl, st, c),
      KF07 |-> KF07(impl, st, c), KF08 |-> KF08(impl, st, c), KF10 |-> KF10(impl, st, c),
      KF11 |-> KF11(impl, st, c), KF12 |-> KF12(impl, st, c), KF13 |-> KF13(impl, st, c),
      KF14 |-> KF14(impl, st, c), KF21 |-> KF21(impl, st, c), KF22 |-> KF22(impl, st, c) \cup KF22and24(impl, st, c),
-     KF24 |-> KF24(impl, st, c), KF25 |-> KF25(impl, st, c), KF27 |-> KF27(impl, st, c), KF29 |-> KF29(impl, st, c), KF33 |-> KF33(impl, st, c), KF34 |-> KF34(impl, st, c), KF47 |-> KF47(impl, st, c)]
+     KF24 |-> KF24(impl, st, c), KF25 |-> KF25(impl, st, c), KF27 |-> KF27(impl, st, c), KF29 |-> KF29(impl, st, c), KF33 |-> KF33(impl, st, c), KF34 |-> KF34(impl, st, c), KF47 |-> KF47(impl, st, c), KF50 |-> KF50(impl, st, c)]
 
-AllKF == {"KF01", "KF02", "KF03", "KF04", "KF05", "KF06", "KF07", "KF08", "KF10", "KF11", "KF12", "KF13", "KF14", "KF21", "KF22", "KF24", "KF25", "KF27", "KF29", "KF33", "KF34", "KF47"}
+AllKF == {"KF01", "KF02", "KF03", "KF04", "KF05", "KF06", "KF07", "KF08", "KF10", "KF11", "KF12", "KF13", "KF14", "KF21", "KF22", "KF24", "KF25", "KF27", "KF29", "KF33", "KF34", "KF47", "KF50"}
 
 DevOutcomes(impl, st, c) ==
     LET t == KFTable(impl, st, c)
